@@ -117,7 +117,7 @@ def _h_patch0(n, p2, h1, h2, top, share, ss, marker, tkind, ckind, v1, v2, v3):
         n = max(1, _c(n, 4))
         p2 = _c(p2, 2)
         hs = [0, _c(h1, 5), _c(h2, 5), 0]
-        top, share, ss, marker = _c(top, 4), _c(share, 3), _c(ss, 2), _c(marker, 2)
+        top, share, ss, marker = _c(top, 4), _c(share, 3), _c(ss, 2), _c(marker, 4)
         tkind, ckind = _c(tkind, 4), _c(ckind, 5)
         ev("patch", n, p2, str(hs), top, share, ss, marker, tkind, ckind)
         if tkind == 0 and ckind == 0:
@@ -143,10 +143,10 @@ def _h_patch(n, p2, hs, top, share, ss, marker, tkind, ckind, v1, v2, v3):
         if got[0] != "ok":
             return Outcome("c15.patch.loads-raises-%s" % got[1], True)
         over, replaced = _expected(g, inst, hs, p2, top, tkind, ckind, v1, v2, v3)
-        base_objs = {o.tag: o for o in pk.instances(base[1]) if type(o).__name__ == "R"}
+        base_objs = {o.tag: o for o in pk.instances(base[1]) if type(o).__name__ in ("R", "R2")}
         got_objs = {}
         for o in pk.instances(got[1]):
-            if type(o).__name__ == "R":
+            if type(o).__name__ in ("R", "R2"):
                 if o.tag in got_objs and got_objs[o.tag] is not o:
                     return Outcome("c15.patch.duplicated-object", True)
                 got_objs[o.tag] = o
@@ -228,7 +228,7 @@ def _h_history(fail, n, h1, top, ss, marker, tkind, ckind, v1, v2, v3):
         fail = _c(fail, 5)
         n = max(1, _c(n, 4))
         hs = [0, _c(h1, 5), 0, 0]
-        top, ss, marker = _c(top, 4), _c(ss, 2), _c(marker, 2)
+        top, ss, marker = _c(top, 4), _c(ss, 2), _c(marker, 4)
         tkind, ckind = _c(tkind, 4), _c(ckind, 5)
         ev("history", fail, n, str(hs), top, ss, marker, tkind, ckind)
         R, Plain = build_classes(marker, 1, 0)
@@ -243,15 +243,17 @@ def _h_history(fail, n, h1, top, ss, marker, tkind, ckind, v1, v2, v3):
         elif fail == 2:
             first = _attempt(lambda: rp.loads(data[:-1], extra_kwargs=patches1))                    # cut just before STOP
         elif fail == 3:
-            orig = R.__setstate__
+            origs = [(c, c.__setstate__) for c in set(R)]
 
             def boom(self, state):
                 raise _Boom()
-            type.__setattr__(R, "__setstate__", boom)
+            for c, _o in origs:
+                type.__setattr__(c, "__setstate__", boom)
             try:
                 first = _attempt(lambda: rp.loads(data, extra_kwargs=patches1))
             finally:
-                type.__setattr__(R, "__setstate__", orig)
+                for c, o in origs:
+                    type.__setattr__(c, "__setstate__", o)
         else:
             first = _attempt(lambda: rp.loads(b"garbage", extra_kwargs=patches1))
         if fail in (1, 2, 3, 4) and first[0] == "ok":
@@ -283,22 +285,22 @@ def _canon_eq(a, b):
 
 
 _pparams = OrderedDict([("n", (1, 3)), ("p2", (0, 1)), ("h1", (0, 4)), ("h2", (0, 4)), ("top", (0, 3)), ("share", (0, 2)),
-                        ("ss", (0, 1)), ("marker", (0, 1)), ("tkind", (0, 3)), ("ckind", (0, 4)),
+                        ("ss", (0, 1)), ("marker", (0, 3)), ("tkind", (0, 3)), ("ckind", (0, 4)),
                         ("v1", (-1000, 1000)), ("v2", (-1000, 1000)), ("v3", (-1000, 1000))])
 
 H_PATCH = Harness(
     "patch", "vf.props.c15:h_patch", _pparams,
     tiers={
-        "quick": {"ranges": {"h1": (0, 2), "h2": (0, 1), "top": (0, 1)}, "fixed": {"share": 0, "marker": 1},
-                  "partition": ["n", "tkind", "ckind", "ss"], "timeout": 300,
-                  "twin_fixed": {"n": 2, "tkind": 1, "ckind": 1, "ss": 1}},
+        "quick": {"ranges": {"h1": (0, 2), "h2": (0, 1), "top": (0, 1), "marker": (1, 2)}, "fixed": {"share": 0},
+                  "partition": ["n", "tkind", "ckind", "ss", "marker"], "timeout": 300,
+                  "twin_fixed": {"n": 2, "tkind": 1, "ckind": 1, "ss": 1, "marker": 1}},
         "thorough": {"partition": ["n", "tkind", "ckind", "ss", "marker", "top"], "timeout": 1800,
                      "twin_fixed": {"n": 2, "tkind": 1, "ckind": 1, "ss": 1, "marker": 1, "top": 0}},
     },
     functions=_FUNCS + ["pyworkers._remote_pickle.state:RemoteState.context.__init__"],
 )
 
-_hparams = OrderedDict([("fail", (0, 4)), ("n", (1, 3)), ("h1", (0, 4)), ("top", (0, 3)), ("ss", (0, 1)), ("marker", (0, 1)),
+_hparams = OrderedDict([("fail", (0, 4)), ("n", (1, 3)), ("h1", (0, 4)), ("top", (0, 3)), ("ss", (0, 1)), ("marker", (0, 3)),
                         ("tkind", (0, 3)), ("ckind", (0, 4)), ("v1", (-1000, 1000)), ("v2", (-1000, 1000)), ("v3", (-1000, 1000))])
 
 H_HISTORY = Harness(
